@@ -47,6 +47,11 @@ structure Holds (cfg : Cfg) : Prop where
       location cfg h1 i1 depth per = some l → location cfg h2 i2 depth per = some l → h1 = h2 ∧ i1 = i2
   /-- asking the same name object again, for another island count, answers for THAT count -/
   cacheSound : ∀ h N1 N2, 0 < N1 → 0 < N2 → N1 < 2 ^ 64 → N2 < 2 ^ 64 → secondCall cfg h N1 N2 = sdkIsland cfg h N2
+  /-- the location is a function of (name, island, depth, per-level) also on a name object that was asked before -/
+  pathCacheSound : ∀ h i1 d1 p1 i2 d2 p2, (location cfg h i1 d1 p1).isSome = true →
+      secondLocation cfg h i1 d1 p1 i2 d2 p2 = location cfg h i2 d2 p2
+  /-- an island without a route never yields a nil client (a nil-pointer panic in the caller) -/
+  unroutedSafe : ∀ servers i, lookup cfg.unroutedIsError servers i ≠ .nilClient
   /-- every server configuration the SDK client accepts routes every island of 1..N to exactly one
       configured server -/
   routed : ∀ servers N, Accepted cfg servers N → ∀ i, 1 ≤ i → i ≤ N → RoutedToOne servers i
@@ -123,6 +128,11 @@ theorem location_inj (cfg : Cfg) (h1 h2 i1 i2 : Nat) (depth per : Int) (l : Loc)
   injection e2 with ei _ ef
   exact ⟨(hexDigits_inj _ _ b2 b1 ef).symm, ei.symm⟩
 
+/-- names are BYTE strings: the precomposed "é" (NFC, c3 a9) and "e" + combining acute (NFD, 65 cc 81) are different
+    names with different canonical paths — no Unicode normalisation is applied, by design -/
+theorem nfc_nfd_are_different_names :
+    canon ⟨[0xc3, 0xa9], [0x62], [0x63]⟩ ≠ canon ⟨[0x65, 0xcc, 0x81], [0x62], [0x63]⟩ := by decide
+
 /-- distinct names give distinct canonical path strings when no part contains '/' -/
 theorem distinct_names_distinct_paths (a b : Name) (ha : a.NoSlash) (hb : b.NoSlash) (h : a ≠ b) : canon a ≠ canon b :=
   fun e => h (canon_inj a b ha hb e)
@@ -197,6 +207,37 @@ example : Partition partServers 10 := by
     simp only [partServers, List.mem_cons, List.mem_nil_iff, or_false] at hs'
     rcases hs' with rfl | rfl | rfl <;> simp [covers] at hc ⊢ <;> omega
 
+theorem second_location_sound (cfg : Cfg) (hk : cfg.pathCacheKeyedByArgs = true) (h i1 : Nat) (d1 p1 : Int) (i2 : Nat) (d2 p2 : Int)
+    (hs : (location cfg h i1 d1 p1).isSome = true) : secondLocation cfg h i1 d1 p1 i2 d2 p2 = location cfg h i2 d2 p2 := by
+  cases hl : location cfg h i1 d1 p1 with
+  | none => rw [hl] at hs; simp at hs
+  | some l1 =>
+    simp only [secondLocation, hl, hk, Bool.true_and]
+    by_cases e : (i1, d1, p1) = (i2, d2, p2)
+    · have e1 : i1 = i2 := (Prod.mk.inj e).1
+      have e2 : d1 = d2 := (Prod.mk.inj (Prod.mk.inj e).2).1
+      have e3 : p1 = p2 := (Prod.mk.inj (Prod.mk.inj e).2).2
+      subst e1 e2 e3; simp [hl]
+    · simp [e]
+
+theorem refutes_stale_path (cfg : Cfg) (hk : cfg.pathCacheKeyedByArgs = false) : ¬ Holds cfg := by
+  intro hh
+  have hs : (location cfg 5 1 0 1).isSome = true := by simp [location, hashedLevels, levelsFrom]
+  have := hh.pathCacheSound 5 1 0 1 2 0 1 hs
+  simp [secondLocation, location, hashedLevels, levelsFrom, hk] at this
+
+theorem unrouted_is_error (cfg : Cfg) (h : cfg.unroutedIsError = true) (servers : List Server) (i : Nat) :
+    lookup cfg.unroutedIsError servers i ≠ .nilClient := by
+  simp only [lookup, h, if_true]
+  cases route servers i <;> simp
+
+/-- island 6 of the gap configuration: the caller receives a nil client -/
+theorem unrouted_nil_witness : lookup false gapServers 6 = .nilClient := by decide
+
+theorem refutes_unrouted_nil (cfg : Cfg) (h : cfg.unroutedIsError = false) : ¬ Holds cfg := by
+  intro hh
+  exact hh.unroutedSafe gapServers 6 (by rw [h]; exact unrouted_nil_witness)
+
 /-- the client accepts the gap configuration silently, so "every island is routed" fails -/
 theorem refutes_unvalidated (cfg : Cfg) (hv : cfg.validatesRanges = false) : ¬ Holds cfg := by
   intro hh
@@ -207,12 +248,15 @@ theorem refutes_unvalidated (cfg : Cfg) (hv : cfg.validatesRanges = false) : ¬ 
 /-! ### the full statement for repaired facts -/
 
 theorem holds_repaired (cfg : Cfg) (hg : cfg.goodIsland = true) (hc : cfg.clampStart = true)
-    (hs : cfg.rejectsSlash = true) (hv : cfg.validatesRanges = true) (hk : cfg.cacheKeyedByN = true) : Holds cfg :=
+    (hs : cfg.rejectsSlash = true) (hv : cfg.validatesRanges = true) (hk : cfg.cacheKeyedByN = true)
+    (hu : cfg.unroutedIsError = true) (hpc : cfg.pathCacheKeyedByArgs = true) : Holds cfg :=
   ⟨island_range cfg hg, island_range_server cfg hg, island_sdk_eq_server cfg hg,
    fun h depth per _ => path_no_panic_clamped cfg hc h depth per,
    fun a b va vb hne => distinct_names_distinct_paths a b (va hs) (vb hs) hne,
    fun h1 h2 i1 i2 depth per l b1 b2 e1 e2 => location_inj cfg h1 h2 i1 i2 depth per l b1 b2 e1 e2,
    fun h N1 N2 h1 h2 b1 b2 => second_call_sound cfg hg hk h N1 N2 h1 h2 b1 b2,
+   fun h i1 d1 p1 i2 d2 p2 hs => second_location_sound cfg hpc h i1 d1 p1 i2 d2 p2 hs,
+   unrouted_is_error cfg hu,
    fun servers N ha i h1 hN => route_partition servers N (ha hv) i h1 hN⟩
 
 /-- What holds for the code as it is. -/
@@ -239,11 +283,11 @@ theorem holds_partial (cfg : Cfg) (hg : cfg.goodIsland = true) : HoldsPartial cf
 /-! ### non-vacuity -/
 
 /-- the facts of the tree before the clamp repair (`start` not clamped) -/
-def current : Cfg := ⟨true, true, 16, false, 2, false, false, 1, 1000, false, false⟩
+def current : Cfg := ⟨true, true, 16, false, 2, false, false, 1, 1000, false, false, false, false⟩
 /-- the facts after it: only the separator finding is left -/
 def clamped : Cfg := { current with clampStart := true }
 /-- repaired facts -/
-def repaired : Cfg := { current with clampStart := true, rejectsSlash := true, validatesRanges := true, cacheKeyedByN := true }
+def repaired : Cfg := { current with clampStart := true, rejectsSlash := true, validatesRanges := true, cacheKeyedByN := true, unroutedIsError := true, pathCacheKeyedByArgs := true }
 
 example : current.goodIsland = true ∧ repaired.goodIsland = true := by decide
 /-- hash 0xd24ec4f1a98c6e5b, N = 1000: island 956 on both sides -/
@@ -262,6 +306,12 @@ example : hashedLevels clamped 0xd24ec4f1a98c6e5b 6 70000 =
     hashedLevels clamped 0xf 2 1 = some [[15], []] := by decide
 
 /-! ### witnesses for the code as it is -/
+
+/-- asked for island 1 and then for island 2, the same name object still answers with the island-1 location -/
+theorem stale_path_witness : secondLocation current 0xd24ec4f1a98c6e5b 1 1 1000 2 1 1000 = location current 0xd24ec4f1a98c6e5b 1 1 1000 ∧
+    location current 0xd24ec4f1a98c6e5b 1 1 1000 ≠ location current 0xd24ec4f1a98c6e5b 2 1 1000 := by decide
+
+
 
 /-- hash 0xd24ec4f1a98c6e5b: island 956 of 1000; asked again for 5 islands the same object still says 956 -/
 theorem stale_cache_witness : secondCall current 0xd24ec4f1a98c6e5b 1000 5 = some 956 ∧
@@ -350,11 +400,13 @@ structure Facts where
   routeLookupByIsland : Tri    -- GetServiceClient indexes the map with swampName.GetIslandID(c.allIslands); nil when absent
   routeValidatesRanges : Tri   -- the ranges are checked to partition 1..allIslands
   islandCacheKeyedByN : Tri    -- GetIslandID / GetFolderNumber return the memoised island only for the same N
+  pathCacheKeyedByArgs : Tri   -- GetFullHashPath returns the memoised path only for the same arguments
+  unroutedReturnsError : Tri   -- GetServiceClient(AndHost): an island without a route yields an error-returning client, not nil
   deriving Repr
 
 def cfgOf (f : Facts) : Cfg :=
   ⟨f.sdkPlusOne.isYes, f.srvPlusOne.isYes, f.srvBits.getD 0, f.hexVerb.isNo, f.cplMin.getD 0,
-   f.sliceClampsStart.isYes, f.ctorsRejectSlash.isYes, f.defDepth.getD 0, f.defPer.getD 0, f.routeValidatesRanges.isYes, f.islandCacheKeyedByN.isYes⟩
+   f.sliceClampsStart.isYes, f.ctorsRejectSlash.isYes, f.defDepth.getD 0, f.defPer.getD 0, f.routeValidatesRanges.isYes, f.islandCacheKeyedByN.isYes, f.pathCacheKeyedByArgs.isYes, f.unroutedReturnsError.isYes⟩
 
 /-- every structural fact the model relies on was recognised -/
 def recognised (f : Facts) : Bool :=
@@ -362,7 +414,7 @@ def recognised (f : Facts) : Bool :=
   f.hexVerb != .unknown && f.folderVerb == .yes && f.sliceClampsEnd == .yes && f.loadFixedIndices == .yes &&
   f.sdkPlusOne != .unknown && f.srvPlusOne != .unknown && f.sliceClampsStart != .unknown &&
   f.ctorsRejectSlash != .unknown && f.routeLastWins == .yes && f.routeLookupByIsland == .yes &&
-  f.routeValidatesRanges != .unknown && f.islandCacheKeyedByN != .unknown && f.srvBits.isSome && f.cplMin.isSome && f.defDepth.isSome && f.defPer.isSome
+  f.routeValidatesRanges != .unknown && f.islandCacheKeyedByN != .unknown && f.unroutedReturnsError != .unknown && f.pathCacheKeyedByArgs != .unknown && f.srvBits.isSome && f.cplMin.isSome && f.defDepth.isSome && f.defPer.isSome
 
 def findings (f : Facts) : List String :=
   (if (cfgOf f).sdkPlusOne && (cfgOf f).srvPlusOne then [] else ["C20-island-off-by-one"]) ++
@@ -370,13 +422,15 @@ def findings (f : Facts) : List String :=
   (if (cfgOf f).clampStart || decide ((cfgOf f).defDepth ≤ 1) then [] else ["C20-default-config-panics"]) ++
   (if (cfgOf f).rejectsSlash then [] else ["C20-separator-collision"]) ++
   (if (cfgOf f).validatesRanges then [] else ["C20-routing-unvalidated"]) ++
-  (if (cfgOf f).cacheKeyedByN then [] else ["C20-island-cache-stale"])
+  (if (cfgOf f).cacheKeyedByN then [] else ["C20-island-cache-stale"]) ++
+  (if (cfgOf f).unroutedIsError then [] else ["C20-unrouted-island-panics"]) ++
+  (if (cfgOf f).pathCacheKeyedByArgs then [] else ["C20-path-cache-stale"])
 
 def classify (f : Facts) : Verdict :=
   if !recognised f then .undetermined "a pattern of name.go (server or SDK) was not recognised"
   else if (cfgOf f).srvBits != 16 then .undetermined "server island width is not 16 bits"
   else if (cfgOf f).sdkPlusOne && (cfgOf f).srvPlusOne && (cfgOf f).clampStart && (cfgOf f).rejectsSlash &&
-      (cfgOf f).validatesRanges && (cfgOf f).cacheKeyedByN then .holds
+      (cfgOf f).validatesRanges && (cfgOf f).cacheKeyedByN && (cfgOf f).unroutedIsError && (cfgOf f).pathCacheKeyedByArgs then .holds
   else .violated (findings f)
 
 theorem classify_sound (f : Facts) :
@@ -391,8 +445,8 @@ theorem classify_sound (f : Facts) :
       split
       · rename_i h
         simp only [Bool.and_eq_true] at h
-        obtain ⟨⟨⟨⟨⟨h1, h2⟩, h3⟩, h4⟩, h5⟩, h6⟩ := h
-        exact holds_repaired _ (by simp [Cfg.goodIsland, h1, h2, hb16]) h3 h4 h5 h6
+        obtain ⟨⟨⟨⟨⟨⟨⟨h1, h2⟩, h3⟩, h4⟩, h5⟩, h6⟩, h7⟩, h8⟩ := h
+        exact holds_repaired _ (by simp [Cfg.goodIsland, h1, h2, hb16]) h3 h4 h5 h6 h7 h8
       · rename_i h
         refine ⟨?_, fun hg => holds_partial _ hg⟩
         simp only [Bool.and_eq_true, not_and, Bool.not_eq_true] at h
@@ -410,6 +464,12 @@ theorem classify_sound (f : Facts) :
               | true =>
                 cases h5 : (cfgOf f).validatesRanges with
                 | false => exact refutes_unvalidated _ h5
-                | true => exact refutes_stale_cache _ (by simp [Cfg.goodIsland, h1, h2, hb16]) (h ⟨⟨⟨⟨h1, h2⟩, h3⟩, h4⟩, h5⟩)
+                | true =>
+                  cases h6 : (cfgOf f).cacheKeyedByN with
+                  | false => exact refutes_stale_cache _ (by simp [Cfg.goodIsland, h1, h2, hb16]) h6
+                  | true =>
+                    cases h7 : (cfgOf f).unroutedIsError with
+                    | false => exact refutes_unrouted_nil _ h7
+                    | true => exact refutes_stale_path _ (h ⟨⟨⟨⟨⟨⟨h1, h2⟩, h3⟩, h4⟩, h5⟩, h6⟩, h7⟩)
 
 end Hv.C20
